@@ -30,7 +30,7 @@ TECH = {
 }
 
 def main():
-    claimed = sorted({p for r in engine.RULES for p in r['props']})
+    claimed = sorted({p for r in engine.RULES for p in r['props'] if any(r2['id'].startswith(p + '.') for r2 in engine.RULES)})
     checks = []
     for p in claimed:
         meta = PROPS[p]
